@@ -447,7 +447,8 @@ def make_contraction_harness(which, present):
             want = NP.dot(lam, G[s])         # lam^T G_k  (= -(H^-1 v)^T dg/dp_k)
             got = onp.asarray(ct, dtype=object).reshape(-1)
             wantf = onp.asarray(want, dtype=object).reshape(-1)
-            ok_shape = (not isinstance(ct, (tuple, list))) and got.size == wantf.size
+            ok_shape = ((not isinstance(ct, (tuple, list))) and got.size == wantf.size
+                        and all(px.is_sym(t) or isinstance(t, (int, float, onp.floating)) for t in got))
             ex.goal('cotangent_shape', Holds(ok_shape), info='slot %d' % s)
             if ok_shape:
                 ex.goal('cotangent_is_adjoint_contracted_with_dgdp[slot %d]' % s, Eq(U(got), U(wantf), scale=scale), info='ct_k = lam^T (dg/dp_k), H lam = -v')
